@@ -291,34 +291,38 @@ def rule_every_ring(chk, db, cfgname):
     g = C.Cfg(f)
     loops = g.loops()
     n = 0
+
+    def controls(bid):
+        """(innermost loop body, conditions other than the loop's own and degenerate-ring tests that control bid)"""
+        body = head = None
+        for h, blocks in loops.items():
+            if bid in blocks and (body is None or len(blocks) < len(body)):
+                body, head = blocks, h
+        extra = []
+        if body is not None:
+            work, seen = [bid], set()
+            while work:
+                y = work.pop()
+                for d, k in g.control_deps(y):
+                    if (d, k) in seen or d not in body:
+                        continue
+                    seen.add((d, k))
+                    work.append(d)
+                    cond, _ = C.branch_cond(g.blocks[d])
+                    if d != head and cond is not None and '__begin' not in T.pstr(cond):
+                        # skipping a degenerate ring (fewer than 3 vertices / empty) loses no boundary
+                        calls = [y for y in T.walk(cond) if isinstance(y, dict) and y.get('k') == 'call']
+                        degenerate = calls and all(T.short(y.get('fn', '')) in ('size', 'empty') for y in calls) \
+                            and not any(isinstance(y, dict) and y.get('k') == 'var' and y.get('s') == 'p'
+                                        for y in T.walk(cond))
+                        if not degenerate:
+                            extra.append(T.pstr(cond)[:60])
+        return body, extra
     for b in f['blocks']:
         for e in b['ev']:
             if e.get('k') == 'call' and T.short(e.get('fn', '')) == 'OffsetContour':
                 n += 1
-                body = None
-                head = None
-                for h, blocks in loops.items():
-                    if b['id'] in blocks and (body is None or len(blocks) < len(body)):
-                        body, head = blocks, h
-                extra = []
-                if body is not None:
-                    work, seen = [b['id']], set()
-                    while work:
-                        y = work.pop()
-                        for d, k in g.control_deps(y):
-                            if (d, k) in seen or d not in body:
-                                continue
-                            seen.add((d, k))
-                            work.append(d)
-                            cond, _ = C.branch_cond(g.blocks[d])
-                            if d != head and cond is not None and '__begin' not in T.pstr(cond):
-                                # skipping a degenerate ring (fewer than 3 vertices / empty) loses no boundary
-                                calls = [y for y in T.walk(cond) if isinstance(y, dict) and y.get('k') == 'call']
-                                degenerate = calls and all(T.short(y.get('fn', '')) in ('size', 'empty') for y in calls) \
-                                    and not any(isinstance(y, dict) and y.get('k') == 'var' and y.get('s') == 'p'
-                                                for y in T.walk(cond))
-                                if not degenerate:
-                                    extra.append(T.pstr(cond)[:60])
+                body, extra = controls(b['id'])
                 ok = body is not None and not extra
                 chk.obligation(ok, {'function': f['name'], 'line': e.get('ln'),
                                     'OffsetContour in the ring loop is conditional on': extra or 'nothing'})
@@ -327,6 +331,37 @@ def rule_every_ring(chk, db, cfgname):
                                   'some input rings are not offset (%s): the result lacks their offset boundary, so it '
                                   'is not the set of points within/farther than delta of the region' % '; '.join(extra),
                                   line=e.get('ln'), cfg=cfgname)
+    # the offset ring must also REACH the union: the statement that stores the local holding OffsetContour's result
+    # is controlled by nothing but the loop and degenerate-ring tests either
+    results = set()
+    for b in f['blocks']:
+        for e in b['ev']:
+            if e.get('k') == 'decl':
+                for v in e['vars']:
+                    if isinstance(v.get('init'), dict) and any(
+                            isinstance(y, dict) and y.get('k') == 'call' and T.short(y.get('fn', '')) == 'OffsetContour'
+                            for y in T.walk(v['init'])):
+                        results.add(v['n'])
+    m = 0
+    for b in f['blocks']:
+        for e in b['ev']:
+            if e.get('k') == 'call' and T.short(e.get('fn', '')) in ('push_back', 'emplace_back') and any(
+                    isinstance(y, dict) and y.get('k') == 'var' and y.get('n') in results
+                    for a in e.get('args', []) for y in T.walk(a)):
+                m += 1
+                body, extra = controls(b['id'])
+                ok = body is not None and not extra
+                chk.obligation(ok, {'function': f['name'], 'line': e.get('ln'), 'store': T.pstr(e)[:50],
+                                    'storing the offset ring is conditional on': extra or 'nothing'})
+                if not ok:
+                    chk.violation('C12.2d', f, 'offset ring dropped under %s' % (extra[:1] or ['?'])[0],
+                                  'an offset ring is computed but kept out of the union under %s: a whole-ring test '
+                                  '(orientation, area, extent) cannot tell a ring that vanished from one that only '
+                                  'inverted locally, so part of the offset region is lost' % '; '.join(extra),
+                                  line=e.get('ln'), cfg=cfgname)
+    if results and not m:
+        raise AnalysisBroken('C12.2d: the result of OffsetContour (%s) is never stored' % sorted(results))
+    chk.count('c12.2d.offset_ring_stores', m)
     chk.count('c12.2d.offsetcontour_calls', n)
 
 
@@ -355,6 +390,87 @@ def rule_decompose_input(chk, db, cfgname):
     chk.count('c12.3.decompose_calls', n)
 
 
+def rule_signed_area_order(chk, db, cfgname):
+    chk.rule('C12.4', 'a field that holds a SIGNED area (assigned from SignedArea(): outlines positive, holes negative) '
+             'takes part in an ordering comparison only as a sign test against 0 or through fabs/abs: "the smallest '
+             'ring that contains this one" is smallest by magnitude, and ordering signed values puts every hole before '
+             'every outline')
+    fields = set()
+    for f in db.functions.values():
+        if not f.get('blocks') or not f['file'].startswith('src/'):
+            continue
+        for b in f['blocks']:
+            for e in b['ev']:
+                if e.get('k') == 'bin' and e.get('op') == '=' and T.strip(e['l']).get('k') == 'mem':
+                    r0 = T.strip_copy(e['r'])
+                    if r0.get('k') == 'call' and T.short(r0.get('fn', '')) == 'SignedArea':
+                        l0 = T.strip(e['l'])
+                        fields.add((l0.get('cls'), l0.get('n')))
+    if not fields:
+        raise AnalysisBroken('C12.4: no field is assigned from SignedArea() any more')
+
+    def signed_refs(x, inits, depth=0):
+        """mem nodes of a signed-area field inside x (through never-reassigned locals) that are not under fabs/abs"""
+        out = []
+        stack = [x]
+        while stack:
+            y = stack.pop()
+            if not isinstance(y, dict):
+                continue
+            if y.get('k') == 'call' and T.short(y.get('fn', '')) in ('fabs', 'abs'):
+                continue
+            if y.get('k') == 'mem' and (y.get('cls'), y.get('n')) in fields:
+                out.append(y)
+            if y.get('k') == 'var' and y.get('d') in inits and depth < 2:
+                out += signed_refs(inits[y['d']], inits, depth + 1)
+            stack.extend(T.children(y))
+        return out
+
+    def is_zero(x):
+        x = T.strip_copy(x)
+        return x.get('k') in ('int', 'float', 'lit', 'num') and str(x.get('v', x.get('val', ''))).strip('.0f') == ''
+    n = 0
+    seen = set()
+    for f in db.functions.values():
+        if not f.get('blocks') or not f['file'].startswith('src/'):
+            continue
+        roots = [e for b in f['blocks'] for e in b['ev']] + \
+                [b['term']['cond'] for b in f['blocks'] if b.get('term') and isinstance(b['term'].get('cond'), dict)]
+        inits, assigned = {}, set()
+        for r in roots:
+            if r.get('k') == 'decl':
+                for v in r['vars']:
+                    if isinstance(v.get('init'), dict) and v.get('d'):
+                        inits[v['d']] = v['init']
+            for y in T.walk(r):
+                if isinstance(y, dict) and y.get('k') == 'bin' and y.get('op', '').endswith('=') and \
+                        y.get('op') not in ('==', '!=', '<=', '>='):
+                    t = T.strip(y['l'])
+                    if t.get('k') == 'var' and t.get('d'):
+                        assigned.add(t['d'])
+        inits = {d: i for d, i in inits.items() if d not in assigned}
+        for r in roots:
+            for y in T.walk(r):
+                if not (isinstance(y, dict) and y.get('k') == 'bin' and y.get('op') in ('<', '>', '<=', '>=')):
+                    continue
+                sl, sr = signed_refs(y['l'], inits), signed_refs(y['r'], inits)
+                if not sl and not sr:
+                    continue
+                key = (f['key'], y.get('ln'), T.pstr(y))
+                if key in seen:
+                    continue
+                seen.add(key)
+                n += 1
+                ok = (sl and is_zero(y['r'])) or (sr and is_zero(y['l']))
+                chk.obligation(bool(ok), {'function': f['name'][:70], 'line': y.get('ln'), 'comparison': T.pstr(y)[:70]})
+                if not ok:
+                    chk.violation('C12.4', f, 'signed area ordered: %s' % T.pstr(y)[:60],
+                                  'the signed area field is compared by value (%s): holes (negative) sort before every '
+                                  'outline, so "smallest containing ring" picks the wrong parent as soon as outlines and '
+                                  'holes nest more than one level' % T.pstr(y)[:70], line=y.get('ln'), cfg=cfgname)
+    chk.count('c12.4.signed_area_comparisons', n)
+
+
 def main(chk, tier):
     import db as D
     configs = ['seq'] if tier == 'quick' else ['seq', 'par']
@@ -369,6 +485,7 @@ def main(chk, tier):
         rule_segments(chk, db, cfgname)
         rule_every_ring(chk, db, cfgname)
         rule_decompose_input(chk, db, cfgname)
+        rule_signed_area_order(chk, db, cfgname)
     n = len(configs)
     chk.floor('c12.1.returns', 6 * n)
     chk.floor('c12.1.appends', 7 * n)
@@ -378,6 +495,7 @@ def main(chk, tier):
     chk.floor('c12.2c.guards', n)
     chk.floor('c12.2d.offsetcontour_calls', n)
     chk.floor('c12.3.decompose_calls', n)
+    chk.floor('c12.4.signed_area_comparisons', 2 * n)
     return chk.finish(
         'Provenance analysis of the four vertex/ring-selecting helpers (what they return is built only from copies '
         'of input elements, SimplifyRing in input order) and a structural check of Offset\'s returns and segment '
